@@ -41,6 +41,8 @@ def datasets(tier):
         {'family': 'shoc_simple', 'ny': 2, 'nx': 2},
         {'family': 'shoc_standard', 'nj': 2, 'ni': 3},
         {'family': 'ugrid', 'mesh': 'M4', 'supplied': ['edge_node']},
+        {'family': 'cf1d', 'ny': 2, 'nx': 3, 'declare_reversed': True},
+        {'family': 'shoc_standard', 'nj': 3, 'ni': 2, 'declare_reversed': True},
     ]
     if tier == 'thorough':
         specs += [
